@@ -517,13 +517,19 @@ fn listing_side<V: VirtualFileSystem>(vfs: &V, be: &str, built: bool, paths: &[V
             }
         };
         q.push(json!({"p": p, "exists": b("exists"), "is_dir": b("is_dir"), "is_file": b("is_file"), "is_symlink": b("is_symlink")}));
-        for op in ["paths", "dirs", "files", "all_paths", "all_dirs", "all_files"] {
-            let mut r = apply(vfs, &call(op, &s, ""));
-            if r["o"] != "ok" {
-                r = json!({"o": r["o"], "v": {"ps": [], "canon": "-", "sorted": "-"}});
+        // the canonical spelling and two absolute spellings that are not clean (a lexical detour, a trailing "."): same answers
+        for (si, spell) in [s.clone(), format!("{}/zz/..", s.trim_end_matches('/')), format!("{}/.", s.trim_end_matches('/'))].iter().enumerate() {
+            for op in ["paths", "dirs", "files", "all_paths", "all_dirs", "all_files"] {
+                if si > 0 && !["paths", "all_dirs", "files"].contains(&op) {
+                    continue;
+                }
+                let mut r = apply(vfs, &call(op, spell, ""));
+                if r["o"] != "ok" {
+                    r = json!({"o": r["o"], "v": {"ps": [], "canon": "-", "sorted": "-"}});
+                }
+                strip_listing(&mut r, prefix.len(), &prefix);
+                ls.push(json!({"p": p, "op": op, "r": r}));
             }
-            strip_listing(&mut r, prefix.len(), &prefix);
-            ls.push(json!({"p": p, "op": op, "r": r}));
         }
     }
     json!({"be": be, "built": tf(built), "q": q, "ls": ls})
